@@ -479,7 +479,7 @@ class MultiportILVTMemory(BaseMultiportMemory):
         m.submodules.ilvt = ilvt = self.memory_type(
             shape=shape,
             depth=self.depth,
-            init=self.init,
+            init=[],
             src_loc_at=self.src_loc + 1,
         )
 
